@@ -3,6 +3,12 @@
 // Oracle: a two-layer model written from the property text (underlying map + overlay of puts
 // and tombstones). The store under test is flushable.Wrap(memorydb) or flushable.NewLazy over a
 // memorydb that is produced at the first flush.
+//
+// Iterator handles are part of the histories: iterators of the store, of its snapshots and of a
+// second, independent flushable store (fixed content) are kept open, released when exhausted or
+// early, and the released handles are released AGAIN at drawn later points (kvdb.Iterator: Release
+// "can be called multiple times without causing error") while other iterators are open; those
+// must go on enumerating what the model says.
 package c22
 
 import (
@@ -67,8 +73,20 @@ type mIter struct {
 	expect     []kvmodel.Pair // model iteration at creation time
 	pos        int
 	last       []byte
-	frozen     bool   // iterator over a snapshot: exact at any time
-	snap       *mSnap // owner, when frozen
+	frozen     bool   // iterator over a snapshot or over the second (unchanging) store: exact at any time
+	snap       *mSnap // owner, when it iterates a snapshot
+	kind       string // "live", "snap", "other": which store it iterates
+	// number of Release calls made on ALREADY released iterators while this one was open
+	reReleasedMeanwhile int
+}
+
+// an iterator that was released (after exhaustion or early); the Iterator contract allows to
+// call Release again at any time ("can be called multiple times without causing error").
+type oldIter struct {
+	it       kvdb.Iterator
+	name     string
+	kind     string
+	releases int
 }
 
 type machine struct {
@@ -92,6 +110,14 @@ type machine struct {
 	batches []*mBatch
 	snaps   []*mSnap
 	iters   []*mIter
+
+	// a second, independent flushable store (own memorydb) with content that never changes
+	// after construction: part of it flushed, part of it in the overlay
+	fl2   kvdb.FlushableKVStore
+	view2 *kvmodel.Map
+
+	released []*oldIter // released iterators that may be released again
+	nIter    int        // running number for iterator names
 
 	hash  uint64
 	trace []string
@@ -263,7 +289,37 @@ func newMachine(t *rapid.T) *machine {
 	m.view = kvmodel.New()
 	m.step = -1
 	m.changed() // records the initial readable values at step 0
+	m.newSecondStore(t)
 	return m
+}
+
+// newSecondStore builds an independent flushable store over its own memorydb: a few pairs
+// flushed, then a few puts and deletes left in the overlay. It is only iterated afterwards.
+func (m *machine) newSecondStore(t *rapid.T) {
+	m.fl2 = flushable.Wrap(memorydb.New())
+	m.view2 = kvmodel.New()
+	n := rapid.IntRange(0, 6).Draw(t, "other.n")
+	flushAt := rapid.IntRange(0, n).Draw(t, "other.flushAt")
+	for i := 0; i < n; i++ {
+		if i == flushAt {
+			if err := m.fl2.Flush(); err != nil {
+				t.Fatalf("second store Flush: %v", err)
+			}
+		}
+		k := kvmodel.KeyNear(t, "other.k", m.view2.Keys())
+		if i > flushAt && rapid.IntRange(0, 3).Draw(t, "other.del") == 0 {
+			if err := m.fl2.Delete(k); err != nil {
+				t.Fatalf("second store Delete: %v", err)
+			}
+			m.view2.Delete(k)
+			continue
+		}
+		v := kvmodel.Value(t, "other.v")
+		if err := m.fl2.Put(k, v); err != nil {
+			t.Fatalf("second store Put: %v", err)
+		}
+		m.view2.Put(k, v)
+	}
 }
 
 // lazyInit models the moment a lazy store gets its real underlying database.
@@ -503,7 +559,7 @@ func (m *machine) actSnapshot(t *rapid.T) {
 			m.failf("snapshot#%d: %v", i, err)
 		}
 	case "iter":
-		if len(m.iters) >= 4 {
+		if m.nOpen(false) >= 4 {
 			return
 		}
 		ex := s.m.Keys()
@@ -511,7 +567,7 @@ func (m *machine) actSnapshot(t *rapid.T) {
 		start := kvmodel.StartNear(t, "start", prefix, ex)
 		m.logf("iter#%d = snap#%d.NewIterator(%s,%s)", len(m.iters), i, kvmodel.FormatBytes(prefix), kvmodel.FormatBytes(start))
 		it := &mIter{it: s.s.NewIterator(prefix, start), prefix: prefix, start: start, createStep: m.step,
-			expect: s.m.Iterate(prefix, start), frozen: true, snap: s}
+			expect: s.m.Iterate(prefix, start), frozen: true, snap: s, kind: "snap"}
 		s.iters++
 		m.iters = append(m.iters, it)
 	case "release":
@@ -533,6 +589,13 @@ func (m *machine) advance(idx, n int) {
 	for c := 0; n < 0 || c < n; c++ {
 		ok := it.it.Next()
 		exact := it.frozen || m.step == it.createStep
+		if it.reReleasedMeanwhile > 0 {
+			m.class("rerelease_of_old_iterator_while_another_is_live_and_later_stepped")
+			m.class("rerelease_then_stepped_" + it.kind + "_iterator")
+			if exact {
+				m.class("rerelease_then_stepped_exactly_checked_iterator")
+			}
+		}
 		if !ok {
 			if err := it.it.Error(); err != nil {
 				m.failf("iter#%d error: %v", idx, err)
@@ -572,6 +635,58 @@ func (m *machine) releaseIter(idx int) {
 		it.snap.iters--
 	}
 	m.iters = append(m.iters[:idx], m.iters[idx+1:]...)
+	// keep the released handle: it may be released again later (explicit + deferred Release)
+	m.nIter++
+	m.released = append(m.released, &oldIter{it: it.it, name: fmt.Sprintf("old#%d(%s)", m.nIter, it.kind), kind: it.kind, releases: 1})
+	if len(m.released) > 6 {
+		m.released = m.released[1:]
+	}
+}
+
+// reRelease calls Release on an iterator that was released before. Nothing readable may change.
+func (m *machine) reRelease(t *rapid.T) {
+	i := rapid.IntRange(0, len(m.released)-1).Draw(t, "old")
+	o := m.released[i]
+	m.logf("%s.Release() again (release #%d, %d other iterators open)", o.name, o.releases+1, len(m.iters))
+	o.it.Release()
+	o.releases++
+	m.class("rerelease_of_old_iterator")
+	if o.releases > 2 {
+		m.class("rerelease_third_or_later")
+	}
+	if len(m.iters) > 0 {
+		m.class("rerelease_while_another_iterator_live")
+	}
+	for _, it := range m.iters {
+		it.reReleasedMeanwhile++
+		if it.kind != o.kind {
+			m.class("rerelease_while_iterator_of_other_store_kind_live")
+		}
+	}
+}
+
+// nOpen counts the open iterators of the second store (other == true) or of the store under
+// test and its snapshots.
+func (m *machine) nOpen(other bool) int {
+	n := 0
+	for _, it := range m.iters {
+		if (it.kind == "other") == other {
+			n++
+		}
+	}
+	return n
+}
+
+// pickIter draws an open iterator of the second store (other) or of the store under test and
+// its snapshots; there must be one.
+func (m *machine) pickIter(t *rapid.T, other bool) int {
+	var idx []int
+	for i, it := range m.iters {
+		if (it.kind == "other") == other {
+			idx = append(idx, i)
+		}
+	}
+	return idx[rapid.IntRange(0, len(idx)-1).Draw(t, "iter")]
 }
 
 func (m *machine) actStale(t *rapid.T) {
@@ -579,14 +694,17 @@ func (m *machine) actStale(t *rapid.T) {
 	if len(m.iters) > 0 {
 		op = rapid.SampledFrom([]string{"open", "advance", "advance", "advance", "drain"}).Draw(t, "iop")
 	}
-	if op == "open" && len(m.iters) >= 4 {
+	if op == "open" && m.nOpen(false) >= 4 {
 		op = "advance"
+	}
+	if op != "open" && m.nOpen(false) == 0 {
+		op = "open" // only iterators of the second store are open; those are stepped by actHandles
 	}
 	if op == "open" {
 		prefix, start := m.drawRange(t)
 		m.logf("iter#%d = NewIterator(%s,%s)", len(m.iters), kvmodel.FormatBytes(prefix), kvmodel.FormatBytes(start))
 		m.iters = append(m.iters, &mIter{it: m.fl.NewIterator(prefix, start), prefix: prefix, start: start,
-			createStep: m.step, expect: m.view.Iterate(prefix, start)})
+			createStep: m.step, expect: m.view.Iterate(prefix, start), kind: "live"})
 		m.classifyIter(prefix, start, len(m.view.Iterate(prefix, start)))
 		if k := rapid.IntRange(0, 2).Draw(t, "readNow"); k > 0 {
 			m.logf("iter#%d.next x%d", len(m.iters)-1, k)
@@ -594,7 +712,7 @@ func (m *machine) actStale(t *rapid.T) {
 		}
 		return
 	}
-	i := rapid.IntRange(0, len(m.iters)-1).Draw(t, "iter")
+	i := m.pickIter(t, false)
 	if m.step != m.iters[i].createStep && !m.iters[i].frozen {
 		m.class("stale_iterator_used_after_change")
 	}
@@ -606,6 +724,46 @@ func (m *machine) actStale(t *rapid.T) {
 	k := rapid.IntRange(1, 3).Draw(t, "count")
 	m.logf("iter#%d.next x%d", i, k)
 	m.advance(i, k)
+}
+
+// actHandles: iterator handles beyond "open, read to the end, release once": iterators of the
+// second store, iterators released before they are exhausted, repeated Release of old handles.
+func (m *machine) actHandles(t *rapid.T) {
+	ops := []string{"openOther", "openOther"}
+	if len(m.iters) > 0 {
+		ops = append(ops, "releaseEarly")
+	}
+	if len(m.released) > 0 {
+		ops = append(ops, "rerelease", "rerelease", "rerelease", "rerelease")
+	}
+	if m.nOpen(true) > 0 {
+		ops = append(ops, "stepOther", "stepOther", "stepOther")
+	}
+	switch op := rapid.SampledFrom(ops).Draw(t, "hop"); op {
+	case "openOther":
+		if m.nOpen(true) >= 2 {
+			t.Skip("enough open iterators of the second store")
+		}
+		ex := m.view2.Keys()
+		prefix := kvmodel.PrefixNear(t, "prefix", ex)
+		start := kvmodel.StartNear(t, "start", prefix, ex)
+		m.logf("iter#%d = other.NewIterator(%s,%s)", len(m.iters), kvmodel.FormatBytes(prefix), kvmodel.FormatBytes(start))
+		m.iters = append(m.iters, &mIter{it: m.fl2.NewIterator(prefix, start), prefix: prefix, start: start,
+			createStep: m.step, expect: m.view2.Iterate(prefix, start), frozen: true, kind: "other"})
+		m.class("iterator_of_second_store")
+	case "releaseEarly":
+		i := rapid.IntRange(0, len(m.iters)-1).Draw(t, "iter")
+		m.logf("iter#%d.release (early, after %d pairs)", i, m.iters[i].pos)
+		m.class("iterator_released_early")
+		m.releaseIter(i)
+	case "rerelease":
+		m.reRelease(t)
+	case "stepOther":
+		i := m.pickIter(t, true)
+		k := rapid.IntRange(1, 3).Draw(t, "count")
+		m.logf("iter#%d.next x%d", i, k)
+		m.advance(i, k)
+	}
 }
 
 func (m *machine) actMaintain(t *rapid.T) {
@@ -699,7 +857,18 @@ func (m *machine) finish() {
 		s.s.Release()
 	}
 	m.snaps = nil
+	// every kept handle once more, then the stores must still read as their models
+	for _, o := range m.released {
+		o.it.Release()
+	}
+	if err := kvmodel.CheckAll(m.fl, m.view); err != nil {
+		m.failf("flushable store at end of history: %v", err)
+	}
+	if err := kvmodel.CheckAll(m.fl2, m.view2); err != nil {
+		m.failf("second (independent, unchanged) flushable store at end of history: %v", err)
+	}
 	_ = m.fl.Close()
+	_ = m.fl2.Close()
 }
 
 // prop is the C22 property: one operation history against the two-layer model.
@@ -714,6 +883,7 @@ func prop(t *rapid.T) {
 		"iterate":  m.actIterate,
 		"snapshot": m.actSnapshot,
 		"stale":    m.actStale,
+		"handles":  m.actHandles,
 		"maintain": m.actMaintain,
 	})
 	m.finish()
